@@ -1,4 +1,5 @@
 import TLVerif.Codec.AccessLemmas
+import TLVerif.Codec.Access2
 /-!
 # C43 — generated field accessors control presence consistently
 
@@ -368,6 +369,60 @@ theorem ofRead_agrees (fields : List Field) (vals : List (Option Val)) (params :
   | some t =>
     simp only [AObj.ofRead, List.getElem?_map, hg, Option.map_some, fieldPresent, hm, h1, Option.map_some]
     simp
+
+/-! ### TL2-origin structs: presence is the hidden bit alone -/
+
+/-- what the TL2 / JSON writers see of a field with a presence bit: absent iff the bit is clear -/
+theorem toVal2Fields_get (z : Nat → Val) :
+    ∀ (fields : List Field) (vals : List (Option Val)) (tl2 : List Bool) (i : Nat) (f : Field) (v : Option Val) (b : Bool),
+      fields[i]? = some f → f.tl2bit.isSome = true → vals[i]? = some v → tl2[i]? = some b →
+      (toVal2Fields z fields vals tl2)[i]? =
+        some (if b then (if f.isBit then some (z f.ty) else some (match v with | some x => x | none => z f.ty)) else none) := by
+  intro fields
+  induction fields with
+  | nil => intro vals tl2 i f v b h; simp at h
+  | cons g gs ih =>
+    intro vals tl2 i f v b hf ht hv hb
+    cases vals with
+    | nil => simp at hv
+    | cons w ws =>
+      cases tl2 with
+      | nil => simp at hb
+      | cons c cs =>
+        cases i with
+        | zero =>
+          simp only [List.getElem?_cons_zero, Option.some.injEq] at hf hv hb
+          subst hf; subst hv; subst hb
+          simp only [toVal2Fields, ht, if_true, List.getElem?_cons_zero]
+          rfl
+        | succ i =>
+          simp only [List.getElem?_cons_succ] at hf hv hb
+          simp only [toVal2Fields, List.getElem?_cons_succ]
+          exact ih ws cs i f v b hf ht hv hb
+
+/-- **TL2-origin `bit` field**: after `Set<F>(false)` the field is reported absent and the TL2 / JSON writers see it
+absent (whatever it was before) -/
+theorem setFalse_absent_tl2origin (d : Desc) (c : Callable o fields i f) (hb : f.isBit = true) {t : Nat}
+    (ht : f.tl2bit = some t) (hi : i < o.vals.length) (v : Val) :
+    (o.set fields i v false).isSet fields i = false ∧
+    ∃ vs, (o.set fields i v false).toVal2 d fields = .struct vs ∧ vs[i]? = some none := by
+  refine ⟨setFalse_then_notSet c hb v, _, rfl, ?_⟩
+  have hl : i < o.tl2.length := c.tl2len t ht
+  have htl : (o.set fields i v false).tl2[i]? = some false := by
+    rw [set_tl2 c.hf, ht]
+    simp only [List.getElem?_set_self hl, hb, if_true]
+  have hvl : ∃ w, (o.set fields i v false).vals[i]? = some w := by
+    have : i < (o.set fields i v false).vals.length := by
+      rw [set_eq c.hf]
+      cases hm : f.mask with
+      | none => cases f.tl2bit <;> simp [AObj.stored, hb, hi]
+      | some p =>
+        obtain ⟨a, bit⟩ := p
+        cases a <;> cases f.tl2bit <;> simp [AObj.stored, AObj.withMask, hb, hi]
+    exact ⟨_, List.getElem?_eq_getElem this⟩
+  obtain ⟨w, hw⟩ := hvl
+  have := toVal2Fields_get (zeroVal d (d.insts.size + 1)) fields _ _ i f w false c.hf (by rw [ht]; rfl) hw htl
+  simpa using this
 
 /-! ### the full-strength statement fails: three shapes, all present in `cases.tl` -/
 
